@@ -56,15 +56,17 @@ def run(ctx):
     for var, css in disp.items():
         iv = ctx.fn(norm(css[0].fn))
         errs = prims.err_blocks(iv)
-        ok = any(guarded_any(iv, b, [r'^\(\(Option::unwrap\(context\.negotiated_settings\)\)\.maximum_packet_size_to_server < ']) for b in errs)
+        fnd, okc = prims.never_ok_after(iv, [r'^\(\(Option::unwrap\(context\.negotiated_settings\)\)\.maximum_packet_size_to_server < '])
+        ok = fnd and okc
         ctx.ob(ok, '%s: send-time validator rejects packets longer than the server\'s maximum packet size' % var, 'maxsize|' + var, loc=iv.loc())
     ctx.floor(len(disp), 9, 'send-time validators')
     pv = ctx.fn('publish::validate_publish_packet_outbound_internal')
     errs = prims.err_blocks(pv)
-    ctx.ob(any(guarded_any(pv, b, [r'maximum_qos is AtMostOnce$']) and guarded_any(pv, b, [r'^!\(packet\.qos == QualityOfService::AtMostOnce\{\}\)$']) for b in errs) and
-           any(guarded_any(pv, b, [r'maximum_qos is AtLeastOnce$']) and guarded_any(pv, b, [r'^\(packet\.qos == QualityOfService::ExactlyOnce\{\}\)$']) for b in errs),
+    ctx.ob(prims.rets_after(pv, [r'maximum_qos is AtMostOnce$', r'^!\(packet\.qos == QualityOfService::AtMostOnce\{\}\)$']) == {'Err'} and
+           prims.rets_after(pv, [r'maximum_qos is AtLeastOnce$', r'^\(packet\.qos == QualityOfService::ExactlyOnce\{\}\)$']) == {'Err'},
            'PUBLISH: QoS above the server maximum is rejected (max 0: any QoS>0; max 1: QoS 2)', 'maxqos|table', loc=pv.loc())
-    ctx.ob(any(guarded_any(pv, b, [r'^packet\.retain$']) and guarded_any(pv, b, [r'^!.*\.retain_available$']) for b in errs), 'PUBLISH: retain is rejected when the server does not support it', 'retain', loc=pv.loc())
+    fnd, okc = prims.never_ok_after(pv, [r'^packet\.retain$', r'^!.*\.retain_available$'])
+    ctx.ob(fnd and okc, 'PUBLISH: retain is always rejected when the server does not support it (no accepting path once retain && !retain_available)', 'retain', loc=pv.loc())
 
     # ------------------------------------------------------------ R-C16-2
     ctx.rule('R-C16-2', 'T10 encoder/validator agreement', 'every field written behind a 16-bit length prefix is length-validated (<= 65535) by the packet\'s validators; user property name and value are validated separately')
@@ -145,19 +147,21 @@ def run(ctx):
     for var, fn_, lst in (('Subscribe', 'subscribe::validate_subscribe_packet_outbound', 'subscriptions'), ('Unsubscribe', 'unsubscribe::validate_unsubscribe_packet_outbound', 'topic_filters'), ('Publish', 'publish::validate_publish_packet_outbound', None)):
         v = ctx.fn(fn_)
         errs = prims.err_blocks(v)
-        ctx.ob(any(guarded_any(v, b, [r'^!\(packet\.packet_id == 0\)$']) for b in errs), '%s: a packet id set by the user is rejected at submission' % var, 'static|%s|packet-id' % var, loc=v.loc())
+        fnd, okc = prims.never_ok_after(v, [r'^!\(packet\.packet_id == 0\)$'])
+        ctx.ob(fnd and okc, '%s: a packet id set by the user is always rejected at submission' % var, 'static|%s|packet-id' % var, loc=v.loc())
         if lst:
-            ctx.ob(any(guarded_any(v, b, [r'^Vec::is_empty\(packet\.%s\)$' % lst]) for b in errs), '%s: an empty %s list is rejected' % (var, lst), 'static|%s|nonempty' % var, loc=v.loc())
+            fnd, okc = prims.never_ok_after(v, [r'^Vec::is_empty\(packet\.%s\)$' % lst])
+            ctx.ob(fnd and okc, '%s: an empty %s list is always rejected' % (var, lst), 'static|%s|nonempty' % var, loc=v.loc())
     vp = ctx.fn('publish::validate_publish_packet_outbound')
     errs = prims.err_blocks(vp)
-    ctx.ob(any(guarded_any(vp, b, [r'^!validate::is_valid_topic\(.*packet\.topic\)\)?$']) for b in errs), 'PUBLISH: invalid topic rejected', 'static|Publish|topic', loc=vp.loc())
-    ctx.ob(any(guarded_any(vp, b, [r'^!validate::is_valid_topic\(.*response_topic']) for b in errs), 'PUBLISH: invalid response topic rejected', 'static|Publish|response-topic', loc=vp.loc())
-    ctx.ob(any(guarded_any(vp, b, [r'^\(packet\.topic_alias@Some\.0 == 0\)$']) for b in errs), 'PUBLISH: topic alias 0 rejected', 'static|Publish|alias-zero', loc=vp.loc())
-    ctx.ob(any(guarded_any(vp, b, [r'^Option::is_some\(packet\.subscription_identifiers\)$']) for b in errs), 'PUBLISH: client-side subscription identifiers rejected', 'static|Publish|subids', loc=vp.loc())
+    ctx.ob(prims.rets_after(vp, [r'^!validate::is_valid_topic\(.*packet\.topic\)\)?$']) == {'Err'}, 'PUBLISH: an invalid topic is always rejected', 'static|Publish|topic', loc=vp.loc())
+    ctx.ob(prims.rets_after(vp, [r'^!validate::is_valid_topic\(.*response_topic']) == {'Err'}, 'PUBLISH: an invalid response topic is always rejected', 'static|Publish|response-topic', loc=vp.loc())
+    ctx.ob(prims.rets_after(vp, [r'^\(packet\.topic_alias@Some\.0 == 0\)$']) == {'Err'}, 'PUBLISH: topic alias 0 is always rejected', 'static|Publish|alias-zero', loc=vp.loc())
+    ctx.ob(prims.rets_after(vp, [r'^Option::is_some\(packet\.subscription_identifiers\)$']) == {'Err'}, 'PUBLISH: client-side subscription identifiers are always rejected', 'static|Publish|subids', loc=vp.loc())
     for var, fn_ in (('Subscribe', 'subscribe::validate_subscribe_packet_outbound_internal'), ('Unsubscribe', 'unsubscribe::validate_unsubscribe_packet_outbound_internal')):
         v = ctx.fn(fn_)
         errs = prims.err_blocks(v)
-        ctx.ob(any(guarded_any(v, b, [r'^!validate::is_valid_topic_filter_internal\(']) for b in errs), '%s: every topic filter goes through the filter validity helper' % var, 'static|%s|filters' % var, loc=v.loc())
+        ctx.ob(prims.rets_after(v, [r'^!validate::is_valid_topic_filter_internal\(']) == {'Err'}, '%s: a filter failing the validity helper always rejects the packet' % var, 'static|%s|filters' % var, loc=v.loc())
     it = ctx.fn('validate::is_valid_topic')
     falses = [b for b, e in prims.ret_variants(it) if show(e) == 'False']
     ctx.ob(any(guarded_any(it, b, [r'^str::is_empty\(topic\)$', r'^\(MAXIMUM_STRING_PROPERTY_LENGTH < str::len\(topic\)\)$']) for b in falses) and any('contains' in g for b in falses for g in guard_strs(it, b)),
